@@ -39,7 +39,7 @@ TABLE["C19"] = dict(engine="component", technique="property-based testing + exha
     text="Four generated parts (allocate structure, validation incl. 'nothing sent', completion through the real Input helper and CodeInputter, only-one-code) plus an exhaustive part run in both tiers. The trailing-newline nameplate this found was repaired in repo commit a53d28e (fix:).",
     note=COMP_NOTE + " os.urandom itself is trusted.")
 
-TABLE["C12"] = dict(engine="component", technique="property-based testing: Hypothesis-generated record sequences (all types, 32-bit boundary ids, payload sizes around the Noise packet limits), tape-chosen chunkings and hostile byte-stream variants against a real DilatedConnectionProtocol pair with real Noise; round-trip oracle and nothing-surfaced-after-hostile-element oracle",
+TABLE["C12"] = dict(engine="component", technique="property-based testing: Hypothesis-generated record sequences (all types, 32-bit boundary ids, payload sizes around the Noise packet limits), tape-chosen chunkings and hostile byte-stream variants against a real DilatedConnectionProtocol pair with real Noise; round-trip oracle and nothing-surfaced-after-hostile-element oracle; the thorough tier adds a coverage-guided atheris (libFuzzer) campaign on the unkeyed byte stream with the same oracle inside the fuzz target",
     text="Both ends are the real protocol objects built by Connector.build_protocol (framer, record layer, Noise), joined by byte pipes; the manager is a recording stub, so 'reaching the manager' is observed directly. Hostile variants are produced by a party that does not hold the dilation key.",
     note=COMP_NOTE + " The Noise implementation in use (noiseprotocol if importable, else the /verif shim self-tested by setup) is trusted as an AEAD.")
 
@@ -47,7 +47,7 @@ TABLE["C06"] = dict(engine="component", technique="property-based testing: Hypot
     text="Both ends are real transit.Connection objects owned by real TransitSender/TransitReceiver (real key derivation, real SecretBox), joined by byte pipes under tape-chosen chunking; the manipulating party works on the framed ciphertext without the key.",
     note=COMP_NOTE)
 
-TABLE["C05"] = dict(engine="component", technique="property-based testing: Hypothesis-generated hostile offer names, zip member names, --output-file/--accept-file configurations and pre-existing objects against the real Receiver offer path on the real filesystem; sandbox snapshot-diff oracle against a reference destination computed from the statement",
+TABLE["C05"] = dict(engine="component", technique="property-based testing: Hypothesis-generated hostile offer names, zip member names, --output-file/--accept-file configurations and pre-existing objects against the real `wormhole receive` code (cmd_receive.receive with only the wormhole object and TransitReceiver faked) on the real filesystem; sandbox snapshot-diff oracle against a reference destination computed from the statement",
     text="The real Receiver._parse_offer code path (destination decision, permission prompt, .tmp handling, zip extraction) runs with a fake wormhole and record pipe in a fresh sandbox base/outer/cwd full of decoys; a before/after snapshot (kind, content hash, mode) of the whole sandbox is compared with what the statement allows. One genuine defect is recorded as a known finding (a pre-existing <dest>.tmp is clobbered).",
     note=COMP_NOTE + " Real filesystem under /verif/scratch (removed per case); the check runs as root.")
 
